@@ -21,7 +21,11 @@ META = {
              "pairs that are not ceil(size/f). x method x outside value x "
              "data type x channels x encoding x layout. non-trivial = a new "
              "chunk assembled from >= 2 old chunks on some axis, or an odd "
-             "size, or an anisotropic step; distinct by the whole case."),
+             "size, or an anisotropic step; distinct by the whole case."
+             " Also: the 'auto' method, wide-dynamic-range / full-range vo"
+             'xel values, scale 0 replaced and the pyramid recomputed thro'
+             'ugh the same handle; huge: target chunk sizes 128 / 256 (reg'
+             'ions of more than 2^23 voxels).'),
     "trusted_base": ["the package's Downscaler applied to one whole array "
                      "(its correctness is C07's subject)",
                      "vlib/refs/pyramid_model.py for the must-succeed "
